@@ -28,6 +28,15 @@ Oracle = (i) point: activation.activity(isotope, mass, env, exposure, rests)[row
          charge states / as ion and neutral atom / as isotope ion and natural ion.  The charge does not change
          the nucleus; the ion's own mass enters the mass fraction.  An exception is attributed to the ions
          ("sample-with-ion-of-natural-element-raises") only if the same material without charges computes.
+         (vii) rest-time list SHAPES: per isotope an alphabet of rest times {0, 1 h, a time at which the isotope's
+         shortest-lived product has decayed by exp(-1200) - its activity is exactly 0.0 there -, the end 1e5 h of the
+         range (thorough: also 24 h)}; EVERY sequence over that alphabet up to the length bound (every order, every
+         repetition, 0 in every position, times after a time beyond underflow) is executed through activity(), and
+         through Sample.calculate_activation for every sample; every entry must equal the entry of the call with
+         that single rest time (the same arithmetic, 1e-12), the single-time values obey the rest edge, the row
+         sweep's own list is one of the lists, and the caller's list comes back unaltered.  A deviation is named
+         after the input class of the entry ("...:after-a-time-at-which-the-product-has-decayed-to-zero",
+         "...:list-not-ascending", "...:repeated-time", "...:ascending-list").
 Every deviation is classified by CAUSE with the reference's condition number kappa of the documented
 closed form: |error| <= 64 eps kappa => "<family>-cancellation" ("2n-capture-rate-cancellation" when
 only the spreadsheet's (c + lamP) - lamP subtraction explains it), otherwise "<family>-value-wrong"
@@ -111,6 +120,18 @@ SAMPLE_HIST = dict(
     thorough=dict(fluence=1e12, cd=HIST_CD, fast=HIST_FAST),
 )
 SAME = 1e-12        # two routes through the same arithmetic: equal up to summation order
+# rest-time list shapes: every sequence over a small alphabet of times.  None = the per-isotope time at which the
+# shortest-lived product has decayed by exp(-SHAPE_UNDERFLOW) = 0.0 exactly (SHAPE_NO_UNDERFLOW where that lies
+# beyond the quantifier's range of rest times [0, 1e5] h)
+SHAPE = dict(
+    quick=dict(times=(0.0, 1.0, None, 1e5), maxlen=4, sample_maxlen=3),
+    thorough=dict(times=(0.0, 1.0, None, 24.0, 1e5), maxlen=5, sample_maxlen=4),
+)
+SHAPE_UNDERFLOW = 1200
+SHAPE_NO_UNDERFLOW = 360.0
+SHAPE_END = 1e5
+SHAPE_ENVS = ((1e12, 70.0, 50.0), (1e5, 0.0, 0.0))      # points of the row sweep's grid (both tiers)
+SHAPE_EXPOSURES = (1.0, 100.0)
 
 META = dict(
     level="model_checking", engine="E1",
@@ -125,7 +146,10 @@ META = dict(
           "environment object (path of settings x used-before-hand-over x same object / copy / deepcopy) per "
           "isotope and every ordered pair of settings per sample (environment shared by two Samples, one Sample "
           "recalculated) is compared with fresh objects - non-trivial when the last change of settings changes "
-          "the result"),
+          "the result; every rest-time list over a per-isotope alphabet of times (0, 1 h, a time beyond the underflow "
+          "of the shortest-lived product, 1e5 h) up to the length bound - every order, repetition and position of 0 - "
+          "is compared entry by entry with the single-time calls, through activity() per isotope and through "
+          "Sample.calculate_activation per sample; a list is non-trivial when it is not strictly ascending"),
     bound=dict(
         quick="513 rows x 13608 environments (7 fluences x 6 exposures x 27 ratio pairs x 3 masses x 4 rest times; "
               "ratio pairs: fast ratio {0, 0.02, 0.5, 0.999999, 1, 1.000001, 50} at Cd {0, 1, 70} and Cd ratio "
@@ -135,11 +159,17 @@ META = dict(
               "abundance modes (default, NIST, IAEA); per isotope (224) all 1836 histories of one environment object: "
               "ordered pairs of 18 settings (fluence {1e5,1e12} x Cd {0,1,70} x fast {0,0.5,50}) x "
               "used-before-hand-over {yes,no} x {same object, copy, deepcopy}; per sample all ordered pairs of 6 "
-              "settings x {environment shared by two Samples, Sample recalculated} + a reused Formula object",
+              "settings x {environment shared by two Samples, Sample recalculated} + a reused Formula object; "
+              "rest-time lists: per isotope (224) all 340 sequences of length 1..4 over 4 times {0, 1, underflow time "
+              "of the shortest-lived product (168 isotopes; else 360), 1e5} h + the sweep's list x 2 environments x 2 "
+              "exposures through activity(); per sample (97) all sequences of length 1..3 + all 24 permutations of the 4 "
+              "times x 2 environments through Sample.calculate_activation",
         thorough="513 rows x 38880 environments (15 fluences 1e2..1e16 x 8 exposures 1e-3..1e4 x 27 ratio pairs x 3 x 4; "
                  "contains the quick grid) + threshold exposures; the same samples x 320 environments (5 fluences x 4 "
                  "exposures x Cd {0,0.5,1,70} x fast {0,0.5,1,50}) x 3 abundance modes; per isotope the quick histories + "
-                 "all 10404 paths of three settings (used, same object / copy); per sample all ordered pairs of 9 settings"),
+                 "all 10404 paths of three settings (used, same object / copy); per sample all ordered pairs of 9 settings; "
+                 "rest-time lists: all 3905 sequences of length 1..5 over 5 times {0, 1, underflow time, 24, 1e5} h per "
+                 "isotope, all sequences of length 1..4 + all 120 permutations per sample"),
     assumptions=[
         "the documented chain of a row is the one derived in mc/ref/activation.py from the activation.py "
         "docstring and the spreadsheet column comments (cross sections, fluxes and half-lives as tabulated)",
@@ -158,6 +188,10 @@ META = dict(
         "the documented public attributes of an ActivationEnvironment are fluence, Cd_ratio and fast_ratio; a "
         "caller may assign them at any time and may copy an environment with the copy module; private "
         "attributes an implementation keeps on the object are not looked at",
+        "an entry of a result belongs to its own rest time: it does not depend on the other entries of the rest-time "
+        "list, their order or their number (the statement quantifies over 'every rest time'); rest times are handed to "
+        "activity() as a list and to Sample.calculate_activation as a tuple (its documented default is a tuple); other "
+        "containers (numpy arrays, generators) are outside the alphabet",
         "results of fresh and of reused objects run through the same arithmetic and are compared to 1e-12 "
         "relative; histories whose fresh route raises or is not finite are not judged (the row sweep reports them)",
     ],
@@ -998,6 +1032,267 @@ def sample_history_check(acc, L, name, spec, tier, only=None, mass=SAMPLE_MASS):
     judge("formula-object-reused", "sample-from-formula-object", st, st, formula_object)
 
 
+# --------------------------------------------------------------------------------------- rest-time list shapes
+# The statement speaks of "every rest time": an entry of the result belongs to ITS rest time, whatever else the
+# list holds and in whatever order.  Every list over a small per-isotope alphabet of times (0; a usual time; a
+# time beyond the underflow of the isotope's shortest-lived product, where its activity is exactly 0.0; the end
+# of the quantifier's range) is executed - every order, every repetition, 0 in every position - and every entry
+# must equal the entry of the call with that single time (a second route through the same arithmetic).  The
+# single-time values are tied to the exact reference through the rest edge A(t) = A(0) 2^(-t/T) and through the
+# row sweep's own list REST, which is one of the lists.
+def underflow_time(thalfs):
+    """A rest time (3 significant digits) at which a product with the shortest of the half-lives has decayed by
+    exp(-1200) = 0.0 exactly, or None if that lies beyond the quantifier's 1e5 h."""
+    tmin = min(thalfs)
+    t = float("%.3g" % float(Decimal(SHAPE_UNDERFLOW) * tmin / RA.LN2))
+    return t if 0 < t < SHAPE_END else None
+
+
+def shape_times(tier, thalfs):
+    tu = underflow_time(thalfs)
+    return tuple(SHAPE_NO_UNDERFLOW if t is None and tu is None else (tu if t is None else t)
+                 for t in SHAPE[tier]["times"])
+
+
+def shape_lists(times, maxlen, permutations=False):
+    """Every sequence of length 1..maxlen over the alphabet (+ every permutation of the whole alphabet)."""
+    out, seen = [], set()
+    for n in range(1, maxlen + 1):
+        for seq in itertools.product(times, repeat=n):
+            if seq not in seen:
+                seen.add(seq)
+                out.append(seq)
+    extra = [tuple(REST)] + (list(itertools.permutations(times)) if permutations else [])
+    for seq in extra:
+        if seq not in seen:
+            seen.add(seq)
+            out.append(seq)
+    return out
+
+
+def list_class(times):
+    if list(times) != sorted(times):
+        return "list-not-ascending"
+    if len(set(times)) != len(times):
+        return "repeated-time"
+    return "ascending-list"
+
+
+def entry_class(times, j, zero_at):
+    """Input class of entry j (naming only): zero_at = the times at which this product's single-time value is 0.0."""
+    if times[j] not in zero_at and any(t in zero_at for t in times[:j]):
+        return "after-a-time-at-which-the-product-has-decayed-to-zero"
+    return list_class(times)
+
+
+def shape_snippet(case):
+    head = ("import periodictable as pt\nfrom periodictable import activation\n"
+            "env = activation.ActivationEnvironment(fluence=%(fluence)r, Cd_ratio=%(Cd_ratio)r, fast_ratio=%(fast_ratio)r)\n"
+            "times = %(times)r\n" % case)
+    if case["kind"] == "rest-shape":
+        body = ("iso = %s\nai = iso.neutron_activation[%d]   # %s -> %s (%s)\n"
+                "got = activation.activity(iso, %r, env, %r, list(times))[ai]\n"
+                "one = [activation.activity(iso, %r, env, %r, [t])[ai][0] for t in times]\n"
+                % (iso_expr(case["Z"], case["A"]), case["pos"], case["isotope"], case["daughter"], case["reaction"],
+                   case["mass"], case["exposure"], case["mass"], case["exposure"]))
+    else:
+        body = ("def table(rest_times):\n"
+                "    s = activation.Sample(%r, %r)\n"
+                "    s.calculate_activation(env, exposure=%r, rest_times=rest_times)\n"
+                "    rows = [v for a, v in s.activity.items() if (a.isotope, a.daughter, a.reaction) == %r]\n"
+                "    return rows[%d]\n"
+                "got = table(tuple(times))\n"
+                "one = [table((t,))[0] for t in times]\n"
+                % (case["formula"], case["mass"], case["exposure"], tuple((case.get("row") or ["?"] * 4)[:3]),
+                   (case.get("row") or [0] * 4)[3]))
+    return head + body + ("print(got); print(one)\n"
+                          "assert len(got) == len(one) and all(abs(g - o) <= 1e-12*abs(o) + 1e-290 "
+                          "for g, o in zip(got, one))\n")
+
+
+def compare_shape(acc, case, times, got, single, finish):
+    """got: {key: values} of the list call; single: {t: {key: value}}; finish(case, key) -> (case, snippet).
+    Reports and returns False on a deviation."""
+    keys0 = set(single[times[0]])
+    if set(got) != keys0:
+        c, snip = finish(dict(case, times=list(times), entry=0), None)
+        acc.violation("rest-time-list-changes-the-rows-of-the-result:" + list_class(times), c,
+                      expected=repr(sorted(keys0)), observed=repr(sorted(got)), standalone=snip)
+        return False
+    ok = True
+    for k in sorted(got):
+        vals = list(got[k])
+        if len(vals) != len(times):
+            c, snip = finish(dict(case, times=list(times), entry=0), k)
+            acc.violation("wrong-number-of-rest-times", c, expected=len(times), observed=len(vals), standalone=snip)
+            ok = False
+            continue
+        zero_at = set(t for t in single if single[t].get(k) == 0)
+        for j, t in enumerate(times):
+            acc.traces += 1
+            x, y = fnum(vals[j]), single[t][k]
+            if x is not None and (x == y or abs(x - y) <= SAME * max(abs(x), abs(y)) + TINY):
+                continue
+            c, snip = finish(dict(case, times=list(times), entry=j), k)
+            acc.violation("rest-time-entry-differs-from-single-time-call:" + entry_class(times, j, zero_at), c,
+                          expected="entry %d (rest time %r h) = %r as in the call with that single rest time"
+                          % (j, t, y), observed=repr(vals), standalone=snip)
+            ok = False
+            break
+    return ok
+
+
+def canonical_table(activity):
+    """{(isotope, daughter, reaction, n-th row of that name): values} of a Sample.activity table (records of the
+    table may share target, product and reaction; the table order is the order of the calculation)."""
+    out, seen = {}, {}
+    for a, v in activity.items():
+        name = (str(getattr(a, "isotope", "?")), str(getattr(a, "daughter", "?")), str(getattr(a, "reaction", "?")))
+        n = seen[name] = seen.get(name, -1) + 1
+        out[name + (n,)] = v
+    return out
+
+
+def rest_shape_check(acc, L, key, tier, only=None):
+    """All rest-time lists over the isotope's alphabet of times, through activity()."""
+    Z, A = key
+    rows = L.per_iso[key]
+    iso = L.isotope(Z, A)
+    lib_rows = getattr(iso, "neutron_activation", None)
+    if lib_rows is None or len(lib_rows) != len(rows):
+        return          # reported by the row sweep ("rows-differ-from-table")
+    times = shape_times(tier, [r.thalf_hrs for r in rows])
+    lists = shape_lists(times, SHAPE[tier]["maxlen"])
+    alphabet = sorted(set(times) | set(REST))
+    mass = MASS[0]
+    for fluence, cd, fr in SHAPE_ENVS:
+        for exposure in SHAPE_EXPOSURES:
+            if only is not None and only[:4] != (fluence, cd, fr, exposure):
+                continue
+            env = L.env(fluence, cd, fr)
+            base = dict(kind="rest-shape", Z=Z, A=A, isotope=rows[0].isotope, fluence=fluence, Cd_ratio=cd,
+                        fast_ratio=fr, exposure=exposure, mass=mass, tier=tier)
+
+            def finish(c, pos):
+                r = rows[pos if pos is not None else 0]
+                c = dict(c, pos=r.pos, daughter=r.daughter, reaction=r.reaction)
+                return c, shape_snippet(c)
+
+            single = {}
+            try:
+                for t in alphabet:
+                    acc.evaluations += 1
+                    res = by_position(L.act.activity(iso, mass, env, exposure, [t]), lib_rows)[0]
+                    single[t] = dict((pos, fnum(v[0])) for pos, v in res.items())
+                    if any(v is None or not math.isfinite(v) for v in single[t].values()):
+                        raise ValueError("non-finite")
+            except Exception:       # noqa - reported by the row sweep; nothing to compare a list with
+                acc.count("rest_shapes_skipped_single_time_call_fails")
+                continue
+            # the single-time values hang on the exact reference through the rest edge (the values at rest 0
+            # of this environment are points of the row sweep)
+            for r in rows:
+                a0 = single[0.0].get(r.pos)
+                if a0 is None:
+                    continue
+                for t in alphabet[1:]:
+                    acc.transitions += 1
+                    want = a0 * RA.to_float(RA.rest_factor(r, t))
+                    got = single[t][r.pos]
+                    if abs(got - want) > REL * abs(want) + TINY:
+                        c = make_case(r, fluence, cd, fr, exposure, mass, t, kind="rest-edge")
+                        acc.violation("rest-decay-%s" % r.family, c, expected="A(0)*2^(-t/T) = %r" % want,
+                                      observed=repr(got), standalone=(
+                                          "import periodictable as pt\nfrom periodictable import activation\n"
+                                          "env = activation.ActivationEnvironment(fluence=%r, Cd_ratio=%r, fast_ratio=%r)\n"
+                                          "iso = %s\nai = iso.neutron_activation[%d]\n"
+                                          "a0 = activation.activity(iso, %r, env, %r, [0])[ai][0]\n"
+                                          "a1 = activation.activity(iso, %r, env, %r, [%r])[ai][0]\n"
+                                          "assert abs(a1 - a0*2**(-%r/ai.Thalf_hrs)) <= 1e-9*a0, (a0, a1)\n"
+                                          % (fluence, cd, fr, iso_expr(Z, A), r.pos, mass, exposure, mass, exposure,
+                                             t, t)))
+            for seq in (lists if only is None else [tuple(only[4])]):
+                acc.states += 1
+                if list_class(seq) != "ascending-list":
+                    acc.nontrivial += 1
+                arg = list(seq)
+                acc.evaluations += 1
+                try:
+                    got = by_position(L.act.activity(iso, mass, env, exposure, arg), lib_rows)[0]
+                except Exception as e:      # noqa
+                    c, snip = finish(dict(base, times=list(seq), entry=0), None)
+                    acc.violation("rest-time-list-raises-%s:%s" % (type(e).__name__, list_class(seq)), c,
+                                  expected="the activities of the single-time calls", observed=exc_text(e),
+                                  standalone=snip)
+                    acc.outcome("rest-shape:%s:raises" % list_class(seq))
+                    continue
+                if arg != list(seq):
+                    c, snip = finish(dict(base, times=list(seq), entry=0), None)
+                    acc.violation("rest-times-argument-altered-by-activity", c, expected=repr(list(seq)),
+                                  observed=repr(arg), standalone=snip)
+                ok = compare_shape(acc, base, seq, got, single, finish)
+                acc.outcome("rest-shape:%s:%s" % (list_class(seq), "equal-to-single-time-calls" if ok else "VIOLATION"))
+    acc.info["max_rest_time_lists_per_isotope"] = max(acc.info.get("max_rest_time_lists_per_isotope", 0), len(lists))
+    if underflow_time([r.thalf_hrs for r in rows]) is not None:
+        acc.count("isotopes_with_a_rest_time_beyond_underflow")
+
+
+def rest_shape_sample_check(acc, L, name, spec, tier, only=None, mass=SAMPLE_MASS):
+    """The same lists through Sample.calculate_activation (rest times handed over as a tuple, fresh Sample each)."""
+    act = L.act
+    thalfs = []
+    for sym, A, n, q in norm_spec(spec):
+        Zs = [k for k in L.per_iso if L.per_iso[k][0].symbol == sym and (A is None or k[1] == A)]
+        for k in Zs:
+            thalfs += [r.thalf_hrs for r in L.per_iso[k]]
+    if not thalfs:
+        return
+    times = shape_times(tier, thalfs)
+    lists = shape_lists(times, SHAPE[tier]["sample_maxlen"], permutations=True)
+    alphabet = sorted(set(times) | set(REST))
+    for fluence, cd, fr in SHAPE_ENVS:
+        exposure = SHAPE_EXPOSURES[0]
+        if only is not None and only[:4] != (fluence, cd, fr, exposure):
+            continue
+        env = L.env(fluence, cd, fr)
+        base = dict(kind="rest-shape-sample", formula=name, spec=[list(s) for s in spec], fluence=fluence,
+                    Cd_ratio=cd, fast_ratio=fr, exposure=exposure, mass=mass, tier=tier)
+        def finish(c, k):
+            c = dict(c, row=list(k) if k is not None else None)
+            return c, shape_snippet(c)
+
+        def table(rest_times):
+            acc.evaluations += 1
+            s = act.Sample(name, mass)
+            s.calculate_activation(env, exposure=exposure, rest_times=rest_times)
+            return canonical_table(s.activity)
+
+        single = {}
+        try:
+            for t in alphabet:
+                single[t] = dict((a, fnum(v[0])) for a, v in table((t,)).items())
+                if any(v is None or not math.isfinite(v) for v in single[t].values()):
+                    raise ValueError("non-finite")
+        except Exception:       # noqa - reported by sample_check / the row sweep
+            acc.count("rest_shapes_skipped_single_time_call_fails")
+            continue
+        for seq in (lists if only is None else [tuple(only[4])]):
+            acc.states += 1
+            if list_class(seq) != "ascending-list":
+                acc.nontrivial += 1
+            try:
+                got = table(tuple(seq))
+            except Exception as e:      # noqa
+                c, snip = finish(dict(base, times=list(seq), entry=0), None)
+                acc.violation("sample-rest-time-list-raises-%s:%s" % (type(e).__name__, list_class(seq)), c,
+                              expected="the activities of the single-time calls", observed=exc_text(e),
+                              standalone=snip)
+                continue
+            ok = compare_shape(acc, base, seq, got, single, finish)
+            acc.outcome("rest-shape-sample:%s:%s" % (list_class(seq),
+                                                     "equal-to-single-time-calls" if ok else "VIOLATION"))
+
+
 # --------------------------------------------------------------------------------------- table identity
 def table_check(acc, L):
     """The isotopes carrying activation records are exactly those of the file."""
@@ -1080,6 +1375,20 @@ def _shard80(job):
         _, tier, items = job
         for name, spec in items:
             sample_history_check(acc, L, name, spec, tier)
+    elif kind == "restshape":
+        _, tier, keys = job
+        for key in keys:
+            rest_shape_check(acc, L, tuple(key), tier)
+        if keys:
+            k0 = tuple(keys[0])
+            acc.sample(dict(rest_time_lists=dict(
+                isotope=L.per_iso[k0][0].isotope, times=shape_times(tier, [r.thalf_hrs for r in L.per_iso[k0]]),
+                lists="every sequence of length 1..%d over these times" % SHAPE[tier]["maxlen"],
+                environments=SHAPE_ENVS, exposures=SHAPE_EXPOSURES, mass=MASS[0])))
+    elif kind == "restshape-samples":
+        _, tier, items = job
+        for name, spec in items:
+            rest_shape_sample_check(acc, L, name, spec, tier)
     elif kind == "table":
         table_check(acc, L)
     else:
@@ -1131,6 +1440,8 @@ def run(ctx):
     jobs += [("ions", ctx.tier, ch) for ch in chunks(rotate(sorted(symbols), ctx.seed), 8 if ctx.quick else 16)]
     jobs += [("samplehist", ctx.tier, ch) for ch in chunks(items, 4)]
     jobs += [("envhist", ctx.tier, ks) for ks in balanced(keys, lambda k: len(per_iso[k]), 16 if ctx.quick else 32)]
+    jobs += [("restshape", ctx.tier, ks) for ks in balanced(keys, lambda k: len(per_iso[k]), 16 if ctx.quick else 32)]
+    jobs += [("restshape-samples", ctx.tier, ch) for ch in chunks(items, 8 if ctx.quick else 4)]
     jobs.append(("table",))
     ctx.pmap(_shard, jobs)
     acc = ctx.acc
@@ -1168,6 +1479,14 @@ def _replay80(ctx, case):
         sample_history_check(acc, L, case["formula"], spec, case.get("tier", "quick"),
                              only=(case["mode"], tuple(case["first"]), tuple(case["second"])),
                              mass=case.get("mass", SAMPLE_MASS))
+        return
+    if kind in ("rest-shape", "rest-shape-sample"):
+        only = (case["fluence"], case["Cd_ratio"], case["fast_ratio"], case["exposure"], tuple(case["times"]))
+        if kind == "rest-shape":
+            rest_shape_check(acc, L, (case["Z"], case["A"]), case.get("tier", "quick"), only=only)
+        else:
+            rest_shape_sample_check(acc, L, case["formula"], [tuple(x) for x in case["spec"]],
+                                    case.get("tier", "quick"), only=only, mass=case.get("mass", SAMPLE_MASS))
         return
     if kind == "sample":
         spec = [tuple(s) for s in case["spec"]]
